@@ -562,3 +562,707 @@ Proof.
         { cbn [consumer_run]. rewrite Hin. reflexivity. }
         rewrite E1. cbn [fst snd]. apply Hb; [right; eexists; reflexivity|]. apply Hcall. exact Hexc.
 Qed.
+
+(* ------------------------------------------------------------------ events *)
+
+Definition ghosts (acts : list action) (g : list (list str) * option jerr) : list (list str) * option jerr :=
+  fold_left (fun g a => ghost a g) acts g.
+
+Definition body_action (a : action) : Prop := match a with AStore _ | AEnqueue _ => True | _ => False end.
+
+Definition InvG (g : list (list str) * option jerr) (cs : cstate) (q : jcons) : Prop := Inv (fst g) (snd g) cs q.
+
+Lemma try_resolve_static q :
+  j_exhausted (try_resolve_next_record q) = j_exhausted q /\ j_has_header (try_resolve_next_record q) = j_has_header q.
+Proof.
+  unfold try_resolve_next_record, try_propagate_exception, upd_q. q_destruct q. cbn.
+  destruct qexc; cbn.
+  - destruct qpend; cbn; auto.
+  - destruct qpend; cbn; auto. destruct (qfrse && qpre); cbn.
+    + destruct qfr; cbn; auto. destruct qex; auto.
+    + destruct (dequeue qpush qpull) as [[r pu] pl]. destruct r; cbn; auto. destruct qex; auto.
+Qed.
+
+Lemma do_action_static a q :
+  j_has_header (do_action a q) = j_has_header q /\
+  (a <> AExhausted -> j_exhausted (do_action a q) = j_exhausted q).
+Proof.
+  destruct a; cbn [do_action].
+  - unfold store_or_propagate_exception, try_propagate_exception, upd_q. q_destruct q. destruct qexc; cbn; destruct qpend; cbn; auto.
+  - destruct (try_resolve_static (upd_q q (j_exc q) (j_push q ++ [r]) (j_pull q) (j_frse q) (j_pending q) (j_inbox q))) as [A B].
+    rewrite A, B. q_destruct q. auto.
+  - split; [reflexivity|congruence].
+  - destruct (try_resolve_static q) as [A B]. auto.
+Qed.
+
+Lemma consumer_run_header : forall fuel cs q, j_has_header (snd (consumer_run fuel cs q)) = j_has_header q.
+Proof.
+  assert (Hc : forall q, j_has_header (call_get_record q) = j_has_header q).
+  { intros q. unfold call_get_record. rewrite (proj2 (try_resolve_static _)). q_destruct q. reflexivity. }
+  induction fuel as [|f IH]; intros cs q; [reflexivity|]. cbn [consumer_run].
+  destruct cs as [| |acc|res].
+  - rewrite IH. apply Hc.
+  - destruct (j_inbox q) as [[r| |e]|]; try reflexivity; rewrite IH, Hc; reflexivity.
+  - destruct (j_inbox q) as [[r| |e]|]; try reflexivity. rewrite IH, Hc. reflexivity.
+  - reflexivity.
+Qed.
+
+Lemma body_step a g cs q :
+  body_action a -> InvG g cs q -> (snd g = None -> no_null cs q) ->
+  InvG (ghost a g) cs (do_action a q) /\ (snd (ghost a g) = None -> no_null cs (do_action a q)) /\
+  j_exhausted (do_action a q) = j_exhausted q.
+Proof.
+  intros Hb HI Hnn. destruct g as [E X]. unfold InvG in *. cbn [fst snd] in *.
+  split; [|split].
+  - destruct a as [e|r| |]; try contradiction; destruct X as [x|]; cbn [ghost fst snd Inv].
+    + apply act_any_X. exact HI.
+    + exact (proj1 (act_store_N E cs q e HI (Hnn eq_refl))).
+    + apply act_any_X. exact HI.
+    + exact (proj1 (act_enqueue_N E cs q r HI (Hnn eq_refl))).
+  - destruct a as [e|r| |]; try contradiction; destruct X as [x|]; cbn [ghost fst snd]; try discriminate.
+    intros _. exact (proj2 (act_enqueue_N E cs q r HI (Hnn eq_refl))).
+  - apply do_action_static. destruct a; try contradiction; discriminate.
+Qed.
+
+Lemma body_steps : forall acts g cs q,
+  Forall body_action acts -> InvG g cs q -> (snd g = None -> no_null cs q) ->
+  InvG (ghosts acts g) cs (do_actions acts q) /\ (snd (ghosts acts g) = None -> no_null cs (do_actions acts q)) /\
+  j_exhausted (do_actions acts q) = j_exhausted q.
+Proof.
+  induction acts as [|a r IH]; intros g cs q Hb HI Hnn; [cbn; auto|].
+  inversion Hb as [|? ? Ha Hr]; subst. cbn [ghosts do_actions fold_left].
+  destruct (body_step a g cs q Ha HI Hnn) as (A & B & C).
+  destruct (IH (ghost a g) cs (do_action a q) Hr A B) as (A2 & B2 & C2).
+  split; [exact A2|]. split; [exact B2|]. unfold do_actions in *. rewrite C2. exact C.
+Qed.
+
+Lemma run_inv fuel g cs q :
+  InvG g cs q -> InvG g (fst (consumer_run fuel cs q)) (snd (consumer_run fuel cs q)).
+Proof.
+  destruct g as [E [x|]]; unfold InvG; cbn [fst snd Inv]; [apply run_inv_X|apply run_inv_N].
+Qed.
+
+(* a 'data' event before the end of the input: invariant and "not exhausted" are kept *)
+Lemma chunk_event_inv acts b g cs q :
+  Forall body_action acts -> InvG g cs q -> j_exhausted q = false ->
+  InvG (ghosts acts g) (fst (after_event acts b cs q)) (snd (after_event acts b cs q)) /\
+  j_exhausted (snd (after_event acts b cs q)) = false.
+Proof.
+  intros Hb HI Hex.
+  assert (Hnn : snd g = None -> no_null cs q).
+  { intros HX. destruct g as [E X]. cbn in HX. subst X. apply (InvN_nonull_exhausted E); assumption. }
+  destruct (body_steps acts g cs q Hb HI Hnn) as (A & _ & C).
+  unfold after_event. destruct b; cbn [fst snd].
+  - split; [apply run_inv; exact A|]. rewrite consumer_run_exhausted, C. exact Hex.
+  - split; [exact A|]. rewrite C. exact Hex.
+Qed.
+
+Lemma mu_le_fuel cs q : (mu cs q <= consumer_fuel q)%nat.
+Proof.
+  unfold mu, consumer_fuel, Qof. rewrite app_length.
+  destruct (j_inbox q) as [[r| |e]|]; destruct cs; lia.
+Qed.
+
+Lemma ghosts_app a1 a2 g : ghosts (a1 ++ a2) g = ghosts a2 (ghosts a1 g).
+Proof. unfold ghosts. apply fold_left_app. Qed.
+
+Lemma do_actions_app a1 a2 q : do_actions (a1 ++ a2) q = do_actions a2 (do_actions a1 q).
+Proof. unfold do_actions. apply fold_left_app. Qed.
+
+(* what the consumer ends with, as a function of everything the producer did *)
+Definition finished (g : list (list str) * option jerr) (cs : cstate) (q : jcons) : Prop :=
+  match snd g with
+  | Some e => cs = CDone (inr e)
+  | None => exists recs, cs = CDone (inl recs) /\ InvN (fst g) cs q
+  end.
+
+Lemma finish_run g cs q :
+  InvG g cs q -> (snd g = None -> j_exhausted q = true /\ j_pending q = false) ->
+  finished g (fst (consumer_run (consumer_fuel q) cs q)) (snd (consumer_run (consumer_fuel q) cs q)).
+Proof.
+  intros HI Hc. destruct g as [E [e|]]; unfold InvG, finished in *; cbn [fst snd Inv] in *.
+  - apply run_complete_X; [exact HI|]. unfold consumer_fuel. lia.
+  - destruct (Hc eq_refl) as [Hex Hp].
+    pose proof (run_complete_N (consumer_fuel q) E cs q HI Hex Hp (mu_le_fuel cs q)) as Hd.
+    pose proof (run_inv_N (consumer_fuel q) E cs q HI) as HI'.
+    destruct (fst (consumer_run (consumer_fuel q) cs q)) as [| |acc|[recs|e]]; try contradiction.
+    + exists recs. auto.
+    + destruct HI' as [_ C]. contradiction.
+Qed.
+
+Definition end_shape (acts : list action) : Prop :=
+  (exists e, acts = [AExhausted; AStore e]) \/
+  (exists body, Forall body_action body /\ acts = AExhausted :: body ++ [AResolve]).
+
+Lemma exhausted_step g cs q :
+  InvG g cs q -> (snd g = None -> no_null cs q) ->
+  InvG g cs (do_action AExhausted q) /\ (snd g = None -> no_null cs (do_action AExhausted q)) /\
+  j_exhausted (do_action AExhausted q) = true.
+Proof.
+  intros HI Hnn. destruct g as [E [e|]]; unfold InvG in *; cbn [fst snd Inv] in *.
+  - split; [apply act_any_X; exact HI|]. split; [discriminate|reflexivity].
+  - destruct (act_exhausted_N E cs q HI) as [A B]. split; [exact A|]. split; [intros _; apply B; apply Hnn; reflexivity|reflexivity].
+Qed.
+
+Lemma resolve_step g cs q :
+  InvG g cs q -> j_exhausted q = true ->
+  InvG g cs (do_action AResolve q) /\ (snd g = None -> j_exhausted (do_action AResolve q) = true /\ j_pending (do_action AResolve q) = false).
+Proof.
+  intros HI Hex. destruct g as [E [e|]]; unfold InvG in *; cbn [fst snd Inv] in *.
+  - split; [apply act_any_X; exact HI|discriminate].
+  - destruct (act_resolve_N E cs q HI) as [A B]. split; [exact A|]. intros _. split; [|apply B; exact Hex].
+    rewrite (proj2 (do_action_static AResolve q)); [exact Hex|discriminate].
+Qed.
+
+(* the 'end' event *)
+Lemma end_event_finished acts g cs q :
+  end_shape acts -> InvG g cs q -> j_exhausted q = false ->
+  finished (ghosts acts g) (fst (after_event acts true cs q)) (snd (after_event acts true cs q)).
+Proof.
+  intros Hs HI Hex.
+  assert (Hnn : snd g = None -> no_null cs q).
+  { intros HX. destruct g as [E X]. cbn in HX. subst X. apply (InvN_nonull_exhausted E); assumption. }
+  destruct (exhausted_step g cs q HI Hnn) as (A1 & B1 & C1).
+  unfold after_event. destruct Hs as [[e ->]|(body & Hb & ->)].
+  - cbn [do_actions fold_left ghosts]. change (ghost AExhausted g) with g.
+    destruct (body_step (AStore e) g cs _ I A1 B1) as (A2 & B2 & C2).
+    apply finish_run; [exact A2|]. destruct g as [E [x|]]; cbn; discriminate.
+  - change (AExhausted :: body ++ [AResolve]) with ([AExhausted] ++ body ++ [AResolve]).
+    rewrite !do_actions_app, !ghosts_app. cbn [do_actions fold_left ghosts] in *. change (ghost AExhausted g) with g.
+    destruct (body_steps body g cs _ Hb A1 B1) as (A2 & B2 & C2). fold (do_actions body (do_action AExhausted q)) in *.
+    rewrite C1 in C2.
+    destruct (resolve_step _ cs _ A2 C2) as (A3 & B3).
+    change (ghost AResolve (ghosts body g)) with (ghosts body g).
+    apply finish_run; [exact A3|exact B3].
+Qed.
+
+Definition bulk_shape (acts : list action) : Prop :=
+  (exists e, acts = [AStore e]) \/
+  (exists body, Forall body_action body /\ acts = body ++ [AExhausted; AResolve]).
+
+Lemma InvG_init c : InvG ([], None) CStart (jcons_init c).
+Proof. unfold InvG, Inv, InvN, jcons_init, Qof. cbn. repeat split; reflexivity. Qed.
+
+Lemma bulk_finished c acts :
+  bulk_shape acts ->
+  let q1 := do_actions acts (jcons_init c) in
+  finished (ghosts acts ([], None)) (fst (consumer_run (consumer_fuel q1) CStart q1)) (snd (consumer_run (consumer_fuel q1) CStart q1)).
+Proof.
+  intros Hs q1. unfold q1. clear q1. pose proof (InvG_init c) as HI.
+  assert (Hex : j_exhausted (jcons_init c) = false) by reflexivity.
+  assert (Hnn : snd ([] : list (list str), @None jerr) = None -> no_null CStart (jcons_init c)).
+  { intros _. apply (InvN_nonull_exhausted []); [exact HI|exact Hex]. }
+  destruct Hs as [[e ->]|(body & Hb & ->)].
+  - cbn [do_actions fold_left ghosts].
+    destruct (body_step (AStore e) _ CStart _ I HI Hnn) as (A2 & B2 & C2).
+    apply finish_run; [exact A2|]. cbn. discriminate.
+  - rewrite do_actions_app, ghosts_app.
+    destruct (body_steps body _ CStart _ Hb HI Hnn) as (A2 & B2 & C2).
+    change (do_actions [AExhausted; AResolve] (do_actions body (jcons_init c)))
+      with (do_action AResolve (do_action AExhausted (do_actions body (jcons_init c)))).
+    change (ghosts [AExhausted; AResolve] (ghosts body ([], None))) with (ghosts body ([], None)).
+    destruct (exhausted_step _ CStart _ A2 B2) as (A3 & B3 & C3).
+    destruct (resolve_step _ CStart _ A3 C3) as (A4 & B4).
+    apply finish_run; [exact A4|exact B4].
+Qed.
+
+(* ------------------------------------------------------------------ Part 4: whole runs *)
+
+Definition js_outcome (hh : bool) (g : list (list str) * option jerr) (p : jprod) : jresult :=
+  match snd g with
+  | Some e => JErr e
+  | None => JOk (if hh then tl (fst g) else fst g) (if hh then hd_error (fst g) else None) (js_warnings p) (jNL p) (jNR p)
+  end.
+
+Lemma finished_outcome hh g cs q p :
+  finished g cs q -> j_has_header q = hh -> js_finish cs q p = js_outcome hh g p.
+Proof.
+  unfold finished, js_outcome. destruct g as [E [e|]]; cbn [fst snd].
+  - intros -> _. reflexivity.
+  - intros (recs & -> & (_ & HI)) Hh. cbn in HI. destruct HI as (_ & _ & _ & Hfr & HE).
+    unfold js_finish, js_header. rewrite Hh in *. rewrite Hfr.
+    destruct hh.
+    + destruct E as [|x E']; cbn in HE; [subst recs; reflexivity|]. inversion HE as [HE']. rewrite <- HE'. reflexivity.
+    + cbn in HE. subst recs. reflexivity.
+Qed.
+
+Lemma do_actions_header : forall acts q, j_has_header (do_actions acts q) = j_has_header q.
+Proof.
+  unfold do_actions. induction acts as [|a r IH]; intros q; [reflexivity|]. cbn. rewrite IH. apply do_action_static.
+Qed.
+
+Lemma jcons_init_header c : j_has_header (jcons_init c) = effective_header c.
+Proof. reflexivity. Qed.
+
+Section ProducerFacts.
+  Variable split : str -> list str * bool.
+
+  Lemma prl_body c line p : Forall body_action (snd (process_record_line split c line p)).
+  Proof.
+    unfold process_record_line. destruct (split line) as [record warning]. cbn [snd].
+    apply Forall_app. split; [|repeat constructor].
+    destruct (warning && match j_fdl p with Some _ => false | None => true end && c_rfc c); repeat constructor.
+  Qed.
+
+  Lemma pl_body c l p : Forall body_action (snd (process_line split c l p)).
+  Proof.
+    unfold process_line. destruct (c_rfc c).
+    - unfold process_partial_rfc_record_line.
+      match goal with |- context [add_line c ?a ?l] => destruct (has_comment_line (add_line c a l)); [constructor|destruct (has_full_record (add_line c a l)); [|constructor]] end.
+      match goal with |- context [process_record_line split c ?x ?y] => pose proof (prl_body c x y) as H; destruct (process_record_line split c x y) as [p1 acts] end.
+      exact H.
+    - unfold process_record_line_simple.
+      match goal with |- context [is_comment c ?x] => destruct (is_comment c x); [constructor|apply prl_body] end.
+  Qed.
+
+  Lemma pls_body c : forall L p, Forall body_action (snd (process_lines split c L p)).
+  Proof.
+    induction L as [|l r IH]; intros p; [constructor|]. cbn [process_lines].
+    pose proof (pl_body c l p) as H1. destruct (process_line split c l p) as [p1 a1].
+    specialize (IH p1). destruct (process_lines split c r p1) as [p2 a2]. cbn [snd] in *.
+    apply Forall_app. auto.
+  Qed.
+
+  Lemma flush_body c p : Forall body_action (snd (flush_aggregator split c p)).
+  Proof. unfold flush_aggregator. destruct (is_inside_multiline_record (j_agg p)); [apply prl_body|constructor]. Qed.
+
+  Lemma process_lines_app c : forall L1 L2 p,
+    process_lines split c (L1 ++ L2) p =
+    let '(p1, a1) := process_lines split c L1 p in
+    let '(p2, a2) := process_lines split c L2 p1 in (p2, a1 ++ a2).
+  Proof.
+    induction L1 as [|l r IH]; intros L2 p; cbn [app process_lines].
+    - destruct (process_lines split c L2 p) as [p2 a2]. reflexivity.
+    - destruct (process_line split c l p) as [p1 a1]. rewrite IH.
+      destruct (process_lines split c r p1) as [p2 a2]. destruct (process_lines split c L2 p2) as [p3 a3].
+      rewrite app_assoc. reflexivity.
+  Qed.
+
+  (* everything the reader does with a list of physical lines *)
+  Definition js_lines_result (c : cfg) (lines : list str) : jresult :=
+    let '(p1, a1) := process_lines split c lines jprod_init in
+    let '(p2, a2) := flush_aggregator split c p1 in
+    js_outcome (effective_header c) (ghosts (a1 ++ a2) ([], None)) p2.
+
+  (* the bulk path *)
+  Theorem js_bulk_result c blob :
+    run_js_bulk split c blob =
+    match (match c_enc c with EncUtf8 => decode_whole blob | _ => Some (decode_latin1 blob) end) with
+    | None => JErr JUtf8
+    | Some text => js_lines_result c (lines_js_bulk text)
+    end.
+  Proof.
+    unfold run_js_bulk, process_data_bulk, js_lines_result.
+    destruct (match c_enc c with EncUtf8 => decode_whole blob | _ => Some (decode_latin1 blob) end) as [text|].
+    - fold (lines_js_bulk text).
+      pose proof (pls_body c (lines_js_bulk text) jprod_init) as B1.
+      destruct (process_lines split c (lines_js_bulk text) jprod_init) as [p1 a1].
+      pose proof (flush_body c p1) as B2. destruct (flush_aggregator split c p1) as [p2 a2]. cbn [snd] in *.
+      assert (Hs : bulk_shape (a1 ++ a2 ++ [AExhausted; AResolve])).
+      { right. exists (a1 ++ a2). split; [apply Forall_app; auto|rewrite app_assoc; reflexivity]. }
+      pose proof (bulk_finished c _ Hs) as HF. cbv zeta in HF.
+      destruct (consumer_run _ CStart _) as [cs q2] eqn:ER. cbn [fst snd] in HF.
+      assert (Hh : j_has_header q2 = effective_header c).
+      { pose proof (consumer_run_header (consumer_fuel (do_actions (a1 ++ a2 ++ [AExhausted; AResolve]) (jcons_init c))) CStart
+                      (do_actions (a1 ++ a2 ++ [AExhausted; AResolve]) (jcons_init c))) as H1.
+        rewrite ER in H1. cbn [snd] in H1. rewrite H1, do_actions_header. apply jcons_init_header. }
+      rewrite (finished_outcome _ _ _ _ p2 HF Hh).
+      rewrite app_assoc, ghosts_app. reflexivity.
+    - pose proof (bulk_finished c [AStore JUtf8] (or_introl (ex_intro _ JUtf8 eq_refl))) as HF. cbv zeta in HF.
+      destruct (consumer_run _ CStart _) as [cs q2] eqn:ER. cbn [fst snd] in HF.
+      rewrite (finished_outcome (effective_header c) _ _ _ jprod_init HF); [reflexivity|].
+      pose proof (consumer_run_header (consumer_fuel (do_actions [AStore JUtf8] (jcons_init c))) CStart (do_actions [AStore JUtf8] (jcons_init c))) as H1.
+      rewrite ER in H1. cbn [snd] in H1. rewrite H1, do_actions_header. apply jcons_init_header.
+  Qed.
+End ProducerFacts.
+
+(* a generic sequence of 'data' events, each handled by [f] (bytes or decoded text), with its continuation schedule *)
+Section Events.
+  Variable X : Type.
+  Variable f : X -> jchunk -> jprod -> jchunk * jprod * list action.
+  Hypothesis f_body : forall x k p, Forall body_action (snd (f x k p)).
+
+  Fixpoint gen_events (chunks : list (X * bool)) (k : jchunk) (p : jprod) (cs : cstate) (q : jcons) : jchunk * jprod * cstate * jcons :=
+    match chunks with
+    | [] => (k, p, cs, q)
+    | (x, b) :: r =>
+        let '(k1, p1, acts) := f x k p in
+        let '(cs1, q1) := after_event acts b cs q in
+        gen_events r k1 p1 cs1 q1
+    end.
+
+  Fixpoint gen_prod (xs : list X) (k : jchunk) (p : jprod) : jchunk * jprod * list action :=
+    match xs with
+    | [] => (k, p, [])
+    | x :: r => let '(k1, p1, a1) := f x k p in
+                let '(k2, p2, a2) := gen_prod r k1 p1 in (k2, p2, a1 ++ a2)
+    end.
+
+  Lemma gen_events_inv : forall chunks k p cs q g,
+    InvG g cs q -> j_exhausted q = false ->
+    exists k' p' cs' q' acts,
+      gen_events chunks k p cs q = (k', p', cs', q') /\ gen_prod (map fst chunks) k p = (k', p', acts) /\
+      InvG (ghosts acts g) cs' q' /\ j_exhausted q' = false /\ j_has_header q' = j_has_header q.
+  Proof.
+    induction chunks as [|[x b] r IH]; intros k p cs q g HI Hex.
+    - exists k, p, cs, q, []. cbn. auto.
+    - cbn [gen_events gen_prod map fst]. pose proof (f_body x k p) as Hb.
+      destruct (f x k p) as [[k1 p1] a1]. cbn [snd] in Hb.
+      destruct (chunk_event_inv a1 b g cs q Hb HI Hex) as [A B].
+      assert (Hh : j_has_header (snd (after_event a1 b cs q)) = j_has_header q).
+      { unfold after_event. destruct b; cbn [snd]; [rewrite consumer_run_header|]; apply do_actions_header. }
+      destruct (after_event a1 b cs q) as [cs1 q1]. cbn [fst snd] in *.
+      destruct (IH k1 p1 cs1 q1 _ A B) as (k' & p' & cs' & q' & acts & E1 & E2 & A2 & B2 & C2).
+      exists k', p', cs', q', (a1 ++ acts). rewrite E1, E2, ghosts_app. repeat split; auto. congruence.
+  Qed.
+End Events.
+
+Lemma ghosts_neutral_front a acts g : ghost a g = g -> ghosts (a :: acts) g = ghosts acts g.
+Proof. intros H. cbn [ghosts fold_left]. rewrite H. reflexivity. Qed.
+
+Lemma ghosts_has_store : forall acts g, snd g <> None -> snd (ghosts acts g) <> None.
+Proof.
+  induction acts as [|a r IH]; intros g H; [exact H|]. cbn [ghosts fold_left]. apply IH.
+  destruct a; cbn; auto. destruct (snd g); [discriminate|congruence].
+Qed.
+
+Section StreamFacts.
+  Variable split : str -> list str * bool.
+
+  Lemma pdc_body c d k p : Forall body_action (snd (process_decoded_chunk split c d k p)).
+  Proof.
+    unfold process_decoded_chunk. destruct (chunk_lines (j_pdl k) (j_pdl_cr k) d) as [[ls pdl'] cr'].
+    pose proof (pls_body split c ls p) as H. destruct (process_lines split c ls p) as [p1 acts]. exact H.
+  Qed.
+
+  Lemma pdsc_body c x k p : Forall body_action (snd (process_data_stream_chunk split c x k p)).
+  Proof.
+    unfold process_data_stream_chunk. destruct (decode_js c (j_dec k) x) as [[d d1]|]; [apply pdc_body|repeat constructor].
+  Qed.
+
+  Lemma stream_events_gen c : forall chunks k p cs q,
+    stream_events split c chunks k p cs q = gen_events bytes (process_data_stream_chunk split c) chunks k p cs q.
+  Proof.
+    induction chunks as [|[x b] r IH]; intros k p cs q; [reflexivity|]. cbn [stream_events gen_events].
+    destruct (process_data_stream_chunk split c x k p) as [[k1 p1] a1]. destruct (after_event a1 b cs q) as [cs1 q1]. apply IH.
+  Qed.
+
+  Lemma decoded_events_gen c : forall chunks k p cs q,
+    decoded_events split c chunks k p cs q = gen_events str (process_decoded_chunk split c) chunks k p cs q.
+  Proof.
+    induction chunks as [|[x b] r IH]; intros k p cs q; [reflexivity|]. cbn [decoded_events gen_events].
+    destruct (process_decoded_chunk split c x k p) as [[k1 p1] a1]. destruct (after_event a1 b cs q) as [cs1 q1]. apply IH.
+  Qed.
+
+  Lemma end_shape_pdse c k p : end_shape (snd (process_data_stream_end split c k p)).
+  Proof.
+    unfold process_data_stream_end.
+    destruct (negb (match c_enc c with EncUtf8 => decode_flush (j_dec k) | _ => true end)).
+    - left. exists JUtf8. reflexivity.
+    - assert (H1 : Forall body_action (snd (match j_pdl k with [] => (p, []) | _ => process_line split c (j_pdl k) p end))).
+      { destruct (j_pdl k); [constructor|apply pl_body]. }
+      destruct (match j_pdl k with [] => (p, []) | _ => process_line split c (j_pdl k) p end) as [p1 a1] eqn:E1.
+      replace (match j_pdl k with [] => (p, []) | last_line => process_line split c last_line p end) with (p1, a1)
+        by (rewrite <- E1; destruct (j_pdl k); reflexivity).
+      pose proof (flush_body split c p1) as H2. destruct (flush_aggregator split c p1) as [p2 a2]. cbn [snd] in *.
+      right. exists (a1 ++ a2). split; [apply Forall_app; auto|]. cbn [app]. rewrite <- app_assoc. reflexivity.
+  Qed.
+
+  (* the outcome of any stream run, in terms of what the producer did *)
+  Theorem js_stream_general c b0 chunks :
+    run_js_stream split c b0 chunks =
+    let '(k, p, acts) := gen_prod bytes (process_data_stream_chunk split c) (map fst chunks) jchunk_init jprod_init in
+    let '(_, p1, endacts) := process_data_stream_end split c k p in
+    js_outcome (effective_header c) (ghosts (acts ++ endacts) ([], None)) p1.
+  Proof.
+    unfold run_js_stream.
+    assert (H0 : exists cs0 q1, (if b0 then consumer_run (consumer_fuel (jcons_init c)) CStart (jcons_init c) else (CStart, jcons_init c)) = (cs0, q1) /\
+                   InvG ([], None) cs0 q1 /\ j_exhausted q1 = false /\ j_has_header q1 = effective_header c).
+    { destruct b0.
+      - eexists _, _. split; [apply surjective_pairing|]. split; [apply run_inv; apply InvG_init|].
+        rewrite consumer_run_exhausted, consumer_run_header. auto.
+      - exists CStart, (jcons_init c). split; [reflexivity|]. split; [apply InvG_init|auto]. }
+    destruct H0 as (cs0 & q1 & -> & HI & Hex & Hh).
+    rewrite stream_events_gen.
+    destruct (gen_events_inv bytes _ (pdsc_body c) chunks jchunk_init jprod_init cs0 q1 _ HI Hex)
+      as (k & p & cs1 & q2 & acts & -> & -> & HI2 & Hex2 & Hh2).
+    pose proof (end_shape_pdse c k p) as Hs.
+    destruct (process_data_stream_end split c k p) as [[k3 p1] endacts]. cbn [snd] in Hs.
+    pose proof (end_event_finished endacts _ cs1 q2 Hs HI2 Hex2) as HF.
+    assert (Hh3 : j_has_header (snd (after_event endacts true cs1 q2)) = effective_header c).
+    { unfold after_event. cbn [snd]. rewrite consumer_run_header, do_actions_header. congruence. }
+    destruct (after_event endacts true cs1 q2) as [cs2 q3]. cbn [fst snd] in *.
+    rewrite (finished_outcome _ _ _ _ p1 HF Hh3), ghosts_app. reflexivity.
+  Qed.
+
+  Theorem js_decoded_general c b0 chunks :
+    run_js_decoded split c b0 chunks =
+    let '(k, p, acts) := gen_prod str (process_decoded_chunk split c) (map fst chunks) jchunk_init jprod_init in
+    let '(_, p1, endacts) := process_data_stream_end split c k p in
+    js_outcome (effective_header c) (ghosts (acts ++ endacts) ([], None)) p1.
+  Proof.
+    unfold run_js_decoded.
+    assert (H0 : exists cs0 q1, (if b0 then consumer_run (consumer_fuel (jcons_init c)) CStart (jcons_init c) else (CStart, jcons_init c)) = (cs0, q1) /\
+                   InvG ([], None) cs0 q1 /\ j_exhausted q1 = false /\ j_has_header q1 = effective_header c).
+    { destruct b0.
+      - eexists _, _. split; [apply surjective_pairing|]. split; [apply run_inv; apply InvG_init|].
+        rewrite consumer_run_exhausted, consumer_run_header. auto.
+      - exists CStart, (jcons_init c). split; [reflexivity|]. split; [apply InvG_init|auto]. }
+    destruct H0 as (cs0 & q1 & -> & HI & Hex & Hh).
+    rewrite decoded_events_gen.
+    destruct (gen_events_inv str _ (pdc_body c) chunks jchunk_init jprod_init cs0 q1 _ HI Hex)
+      as (k & p & cs1 & q2 & acts & -> & -> & HI2 & Hex2 & Hh2).
+    pose proof (end_shape_pdse c k p) as Hs.
+    destruct (process_data_stream_end split c k p) as [[k3 p1] endacts]. cbn [snd] in Hs.
+    pose proof (end_event_finished endacts _ cs1 q2 Hs HI2 Hex2) as HF.
+    assert (Hh3 : j_has_header (snd (after_event endacts true cs1 q2)) = effective_header c).
+    { unfold after_event. cbn [snd]. rewrite consumer_run_header, do_actions_header. congruence. }
+    destruct (after_event endacts true cs1 q2) as [cs2 q3]. cbn [fst snd] in *.
+    rewrite (finished_outcome _ _ _ _ p1 HF Hh3), ghosts_app. reflexivity.
+  Qed.
+End StreamFacts.
+
+Fixpoint chunks_lines (pdl : str) (cr : bool) (ds : list str) : list str * str * bool :=
+  match ds with
+  | [] => ([], pdl, cr)
+  | d :: r => let '(l1, pdl1, cr1) := chunk_lines pdl cr d in
+              let '(l2, pdl2, cr2) := chunks_lines pdl1 cr1 r in (l1 ++ l2, pdl2, cr2)
+  end.
+
+Lemma lines_js_from_chunks : forall ds pdl cr,
+  lines_js_from pdl cr ds =
+  let '(ls, pdl', _) := chunks_lines pdl cr ds in ls ++ match pdl' with [] => [] | _ => [pdl'] end.
+Proof.
+  induction ds as [|d r IH]; intros pdl cr; cbn [lines_js_from chunks_lines]; [reflexivity|].
+  destruct (chunk_lines pdl cr d) as [[l1 pdl1] cr1]. rewrite IH.
+  destruct (chunks_lines pdl1 cr1 r) as [[l2 pdl2] cr2]. rewrite app_assoc. reflexivity.
+Qed.
+
+Lemma ghosts_end acts a1 a2 g :
+  ghosts (acts ++ [AExhausted] ++ a1 ++ a2 ++ [AResolve]) g = ghosts ((acts ++ a1) ++ a2) g.
+Proof.
+  rewrite !ghosts_app. cbn [ghosts fold_left ghost]. reflexivity.
+Qed.
+
+Section StreamLines.
+  Variable split : str -> list str * bool.
+
+  Lemma dec_prod_lines c : forall ds k p,
+    gen_prod str (process_decoded_chunk split c) ds k p =
+    let '(ls, pdl', cr') := chunks_lines (j_pdl k) (j_pdl_cr k) ds in
+    let '(p', acts) := process_lines split c ls p in
+    ({| j_pdl := pdl'; j_pdl_cr := cr'; j_dec := j_dec k |}, p', acts).
+  Proof.
+    induction ds as [|d r IH]; intros k p; cbn [gen_prod chunks_lines].
+    - cbn [process_lines]. destruct k; reflexivity.
+    - unfold process_decoded_chunk at 1. destruct (chunk_lines (j_pdl k) (j_pdl_cr k) d) as [[l1 pdl1] cr1].
+      destruct (process_lines split c l1 p) as [p1 a1] eqn:E1. rewrite IH. cbn [j_pdl j_pdl_cr j_dec].
+      destruct (chunks_lines pdl1 cr1 r) as [[l2 pdl2] cr2]. rewrite process_lines_app, E1.
+      destruct (process_lines split c l2 p1) as [p2 a2]. reflexivity.
+  Qed.
+
+  (* the end of the stream, once the decoder has been flushed successfully *)
+  Lemma stream_end_lines c k p acts g :
+    (match c_enc c with EncUtf8 => decode_flush (j_dec k) | _ => true end) = true ->
+    let '(_, p1, endacts) := process_data_stream_end split c k p in
+    let '(p2, a2) := process_lines split c (match j_pdl k with [] => [] | _ => [j_pdl k] end) p in
+    let '(p3, a3) := flush_aggregator split c p2 in
+    p1 = p3 /\ ghosts (acts ++ endacts) g = ghosts ((acts ++ a2) ++ a3) g.
+  Proof.
+    intros Hfl. unfold process_data_stream_end. rewrite Hfl. cbn [negb].
+    destruct (j_pdl k) as [|x pdl] eqn:Ep.
+    - cbn [process_lines]. destruct (flush_aggregator split c p) as [p3 a3]. split; [reflexivity|]. apply (ghosts_end acts [] a3).
+    - cbn [process_lines]. destruct (process_line split c (x :: pdl) p) as [p2 a2].
+      destruct (flush_aggregator split c p2) as [p3 a3]. split; [reflexivity|]. rewrite app_nil_r. apply ghosts_end.
+  Qed.
+
+  (* the stream path over decoded chunks = the reader's line-level function applied to the lines handed over;
+     this holds for every continuation schedule *)
+  Theorem js_decoded_result c b0 chunks :
+    run_js_decoded split c b0 chunks = js_lines_result split c (lines_js (map fst chunks)).
+  Proof.
+    rewrite js_decoded_general, dec_prod_lines. unfold lines_js. rewrite lines_js_from_chunks. cbn [jchunk_init j_pdl j_pdl_cr j_dec].
+    destruct (chunks_lines [] false (map fst chunks)) as [[ls pdl'] cr'].
+    unfold js_lines_result. rewrite process_lines_app.
+    destruct (process_lines split c ls jprod_init) as [p' acts].
+    assert (Hfl : (match c_enc c with EncUtf8 => decode_flush (j_dec {| j_pdl := pdl'; j_pdl_cr := cr'; j_dec := d_init |}) | _ => true end) = true)
+      by (destruct (c_enc c); reflexivity).
+    pose proof (stream_end_lines c {| j_pdl := pdl'; j_pdl_cr := cr'; j_dec := d_init |} p' acts ([], None) Hfl) as H.
+    destruct (process_data_stream_end split c _ p') as [[k3 p1] endacts]. cbn [j_pdl] in H.
+    destruct (process_lines split c (match pdl' with [] => [] | _ => [pdl'] end) p') as [p2 a2].
+    destruct (flush_aggregator split c p2) as [p3 a3]. destruct H as [-> ->]. reflexivity.
+  Qed.
+End StreamLines.
+
+(* decoding the chunks one after the other, as process_data_stream_chunk does *)
+Fixpoint decode_all (c : cfg) (d : dstate) (chunks : list bytes) : option (list str * dstate) :=
+  match chunks with
+  | [] => Some ([], d)
+  | x :: r => match decode_js c d x with
+              | None => None
+              | Some (s, d1) => match decode_all c d1 r with
+                                | None => None
+                                | Some (l, d2) => Some (s :: l, d2)
+                                end
+              end
+  end.
+
+Definition flush_ok (c : cfg) (d : dstate) : bool := match c_enc c with EncUtf8 => decode_flush d | _ => true end.
+
+Lemma decode_all_utf8 c : c_enc c = EncUtf8 -> forall chunks d,
+  decode_streaming_from d chunks =
+  match decode_all c d chunks with
+  | Some (l, dfin) => if decode_flush dfin then Some l else None
+  | None => None
+  end.
+Proof.
+  intros He. induction chunks as [|x r IH]; intros d; cbn [decode_streaming_from decode_all]; [reflexivity|].
+  unfold decode_js. rewrite He. destruct (decode_chunk d x) as [[s d1]|]; [|reflexivity].
+  rewrite IH. destruct (decode_all c d1 r) as [[l d2]|]; [|reflexivity]. destruct (decode_flush d2); reflexivity.
+Qed.
+
+Lemma decode_all_latin1 c : c_enc c <> EncUtf8 -> forall chunks d, decode_all c d chunks = Some (chunks, d).
+Proof.
+  intros He. induction chunks as [|x r IH]; intros d; cbn [decode_all]; [reflexivity|].
+  unfold decode_js. destruct (c_enc c); try congruence; rewrite IH; reflexivity.
+Qed.
+
+Lemma ghosts_in_store e : forall acts g, In (AStore e) acts -> snd (ghosts acts g) <> None.
+Proof.
+  induction acts as [|a r IH]; intros g Hin; [contradiction|]. cbn [ghosts fold_left]. destruct Hin as [->|Hin].
+  - apply ghosts_has_store. cbn. destruct (snd g); discriminate.
+  - apply IH. exact Hin.
+Qed.
+
+Section ByteStream.
+  Variable split : str -> list str * bool.
+
+  Lemma byte_prod_lines c : forall chunks k p ds dfin,
+    decode_all c (j_dec k) chunks = Some (ds, dfin) ->
+    gen_prod bytes (process_data_stream_chunk split c) chunks k p =
+    let '(ls, pdl', cr') := chunks_lines (j_pdl k) (j_pdl_cr k) ds in
+    let '(p', acts) := process_lines split c ls p in
+    ({| j_pdl := pdl'; j_pdl_cr := cr'; j_dec := dfin |}, p', acts).
+  Proof.
+    induction chunks as [|x r IH]; intros k p ds dfin Hd; cbn [decode_all] in Hd.
+    - inversion Hd; subst. cbn. destruct k; reflexivity.
+    - destruct (decode_js c (j_dec k) x) as [[s d1]|] eqn:Ed; [|discriminate].
+      destruct (decode_all c d1 r) as [[l d2]|] eqn:Er; [|discriminate]. inversion Hd; subst. clear Hd.
+      cbn [gen_prod chunks_lines]. unfold process_data_stream_chunk at 1. rewrite Ed.
+      unfold process_decoded_chunk. cbn [j_pdl j_pdl_cr j_dec].
+      destruct (chunk_lines (j_pdl k) (j_pdl_cr k) s) as [[l1 pdl1] cr1].
+      destruct (process_lines split c l1 p) as [p1 a1] eqn:E1.
+      rewrite (IH {| j_pdl := pdl1; j_pdl_cr := cr1; j_dec := d1 |} p1 l dfin Er). cbn [j_pdl j_pdl_cr j_dec].
+      destruct (chunks_lines pdl1 cr1 l) as [[l2 pdl2] cr2]. rewrite process_lines_app, E1.
+      destruct (process_lines split c l2 p1) as [p2 a2]. reflexivity.
+  Qed.
+
+  Lemma byte_prod_error c : forall chunks k p,
+    decode_all c (j_dec k) chunks = None ->
+    In (AStore JUtf8) (snd (gen_prod bytes (process_data_stream_chunk split c) chunks k p)).
+  Proof.
+    induction chunks as [|x r IH]; intros k p Hd; cbn [decode_all] in Hd; [discriminate|].
+    cbn [gen_prod]. unfold process_data_stream_chunk at 1.
+    destruct (decode_js c (j_dec k) x) as [[s d1]|] eqn:Ed.
+    - destruct (decode_all c d1 r) as [[l d2]|] eqn:Er; [discriminate|].
+      destruct (process_decoded_chunk split c s {| j_pdl := j_pdl k; j_pdl_cr := j_pdl_cr k; j_dec := d1 |} p) as [[k1 p1] a1] eqn:Ep.
+      assert (Hk : j_dec k1 = d1).
+      { unfold process_decoded_chunk in Ep. destruct (chunk_lines _ _ s) as [[ls pdl'] cr']. destruct (process_lines split c ls p) as [p' ac].
+        inversion Ep; subst. reflexivity. }
+      rewrite <- Hk in Er. specialize (IH k1 p1 Er).
+      destruct (gen_prod bytes (process_data_stream_chunk split c) r k1 p1) as [[k2 p2] a2]. cbn [snd] in *.
+      apply in_or_app. right. exact IH.
+    - destruct (gen_prod bytes (process_data_stream_chunk split c) r k p) as [[k2 p2] a2]. cbn. left. reflexivity.
+  Qed.
+
+  (* byte chunks that the decoder accepts: the stream path = the line-level function on the lines of the decoded chunks *)
+  Theorem js_stream_result c b0 chunks ds dfin :
+    decode_all c d_init (map fst chunks) = Some (ds, dfin) -> flush_ok c dfin = true ->
+    run_js_stream split c b0 chunks = js_lines_result split c (lines_js ds).
+  Proof.
+    intros Hd Hfl. rewrite js_stream_general.
+    rewrite (byte_prod_lines c (map fst chunks) jchunk_init jprod_init ds dfin Hd).
+    unfold lines_js. rewrite lines_js_from_chunks. cbn [jchunk_init j_pdl j_pdl_cr j_dec].
+    destruct (chunks_lines [] false ds) as [[ls pdl'] cr'].
+    unfold js_lines_result. rewrite process_lines_app.
+    destruct (process_lines split c ls jprod_init) as [p' acts].
+    pose proof (stream_end_lines split c {| j_pdl := pdl'; j_pdl_cr := cr'; j_dec := dfin |} p' acts ([], None) Hfl) as H.
+    destruct (process_data_stream_end split c _ p') as [[k3 p1] endacts]. cbn [j_pdl] in H.
+    destruct (process_lines split c (match pdl' with [] => [] | _ => [pdl'] end) p') as [p2 a2].
+    destruct (flush_aggregator split c p2) as [p3 a3]. destruct H as [-> ->]. reflexivity.
+  Qed.
+
+  (* byte chunks that the decoder rejects (in some chunk, or at the flush): the run ends with an error *)
+  Theorem js_stream_decode_error c b0 chunks :
+    (decode_all c d_init (map fst chunks) = None \/
+     exists ds dfin, decode_all c d_init (map fst chunks) = Some (ds, dfin) /\ flush_ok c dfin = false) ->
+    exists e, run_js_stream split c b0 chunks = JErr e.
+  Proof.
+    intros H. rewrite js_stream_general.
+    assert (Hst : let '(k, p, acts) := gen_prod bytes (process_data_stream_chunk split c) (map fst chunks) jchunk_init jprod_init in
+                  let '(_, p1, endacts) := process_data_stream_end split c k p in
+                  snd (ghosts (acts ++ endacts) ([], None)) <> None).
+    { destruct H as [Hn|(ds & dfin & Hd & Hfl)].
+      - pose proof (byte_prod_error c (map fst chunks) jchunk_init jprod_init Hn) as Hin.
+        destruct (gen_prod bytes _ (map fst chunks) jchunk_init jprod_init) as [[k p] acts]. cbn [snd] in Hin.
+        destruct (process_data_stream_end split c k p) as [[k3 p1] endacts].
+        apply (ghosts_in_store JUtf8). apply in_or_app. left. exact Hin.
+      - rewrite (byte_prod_lines c (map fst chunks) jchunk_init jprod_init ds dfin Hd). cbn [jchunk_init j_pdl j_pdl_cr j_dec].
+        destruct (chunks_lines [] false ds) as [[ls pdl'] cr']. destruct (process_lines split c ls jprod_init) as [p' acts].
+        unfold process_data_stream_end. cbn [j_dec]. unfold flush_ok in Hfl. rewrite Hfl. cbn [negb].
+        apply (ghosts_in_store JUtf8). apply in_or_app. right. right. left. reflexivity. }
+    destruct (gen_prod bytes _ (map fst chunks) jchunk_init jprod_init) as [[k p] acts].
+    destruct (process_data_stream_end split c k p) as [[k3 p1] endacts].
+    unfold js_outcome. destruct (snd (ghosts (acts ++ endacts) ([], None))) as [e|]; [exists e; reflexivity|congruence].
+  Qed.
+
+  (* C20_stream_is_bulk, decoded level: for every schedule, the stream path over decoded chunks = the bulk path's line-level
+     function on the concatenation *)
+  Theorem js_decoded_is_bulk c b0 chunks :
+    js_chunks_ok false false (map fst chunks) ->
+    run_js_decoded split c b0 chunks = js_lines_result split c (lines_js_bulk (concat (map fst chunks))).
+  Proof.
+    intros Hok. rewrite js_decoded_result, (js_lines _ Hok), js_bulk_lines. reflexivity.
+  Qed.
+
+  (* C20_stream_is_bulk, byte level, utf-8 *)
+  Theorem js_stream_is_bulk_utf8 c b0 chunks :
+    c_enc c = EncUtf8 -> valid_utf8 (concat (map fst chunks)) ->
+    (forall ds, decode_streaming (map fst chunks) = Some ds -> js_chunks_ok false false ds) ->
+    run_js_stream split c b0 chunks = run_js_bulk split c (concat (map fst chunks)).
+  Proof.
+    intros He Hv Hok. destruct (utf8_streaming _ Hv (map fst chunks) eq_refl) as (l & Hs & Hw & _).
+    rewrite js_bulk_result, He, Hw.
+    unfold decode_streaming in Hs. rewrite (decode_all_utf8 c He) in Hs.
+    destruct (decode_all c d_init (map fst chunks)) as [[ds dfin]|] eqn:Ed; [|discriminate].
+    destruct (decode_flush dfin) eqn:Ef; [|discriminate]. inversion Hs; subst ds.
+    rewrite (js_stream_result c b0 chunks l dfin Ed) by (unfold flush_ok; rewrite He; exact Ef).
+    assert (Hs' : decode_streaming (map fst chunks) = Some l).
+    { unfold decode_streaming. rewrite (decode_all_utf8 c He), Ed, Ef. reflexivity. }
+    rewrite (js_lines _ (Hok l Hs')), js_bulk_lines. reflexivity.
+  Qed.
+
+  (* ... and for 'binary' (latin-1), where every byte is a character and chunks decode independently *)
+  Theorem js_stream_is_bulk_latin1 c b0 chunks :
+    c_enc c <> EncUtf8 -> js_chunks_ok false false (map fst chunks) ->
+    run_js_stream split c b0 chunks = run_js_bulk split c (concat (map fst chunks)).
+  Proof.
+    intros He Hok. rewrite js_bulk_result.
+    rewrite (js_stream_result c b0 chunks (map fst chunks) d_init (decode_all_latin1 c He _ _)).
+    2:{ unfold flush_ok. destruct (c_enc c); reflexivity. }
+    rewrite (js_lines _ Hok). unfold decode_latin1. destruct (c_enc c); try congruence; rewrite js_bulk_lines; reflexivity.
+  Qed.
+
+  (* invalid or truncated UTF-8: both paths reject *)
+  Theorem js_invalid_rejected c b0 chunks :
+    c_enc c = EncUtf8 -> decode_whole (concat (map fst chunks)) = None ->
+    run_js_bulk split c (concat (map fst chunks)) = JErr JUtf8 /\ exists e, run_js_stream split c b0 chunks = JErr e.
+  Proof.
+    intros He Hn. split; [rewrite js_bulk_result, He, Hn; reflexivity|].
+    apply js_stream_decode_error.
+    pose proof (utf8_invalid_rejected _ Hn (map fst chunks) eq_refl) as Hs.
+    unfold decode_streaming in Hs. rewrite (decode_all_utf8 c He) in Hs.
+    destruct (decode_all c d_init (map fst chunks)) as [[ds dfin]|] eqn:Ed; [|left; exact Ed].
+    right. exists ds, dfin. split; [exact Ed|]. unfold flush_ok. rewrite He. destruct (decode_flush dfin); [discriminate|reflexivity].
+  Qed.
+End ByteStream.
